@@ -84,7 +84,7 @@ def points(xs, ys, dtype=float):
     if _LAST['key'] == key:
         return _LAST['arr']
     a = np.array([xs, ys], dtype=dtype).T.copy()
-    if INT_MODE and dtype is float and a.size and bool(np.all(a == np.round(a))) and bool(np.all(np.abs(a) < 2 ** 40)):
+    if INT_MODE and dtype is float and a.size and bool(np.all(a == np.round(a))) and bool(np.all(np.abs(a) < 2 ** 53)):
         a = a.astype(np.int64)
     _LAST['key'], _LAST['arr'] = key, a
     return a
